@@ -40,7 +40,7 @@ VALUES = {
     'allowed_values': [['a'], ['a', 'é£', "it's", 'say "x"', 'back\\slash', ''], [], None,
                        # characters str.splitlines() treats as line ends but JSON leaves raw; trailing blanks
                        ['x\x85y', 'p\u2028q', 'r\u2029', 'tab\tend ', 'nl\nmid', 'trail  ', '\x0b\x0c\x1c']],
-    'rex': [[r'^\d+$'], [r'^[A-Z]{2}\-\d+$', r'^"q"$', r"^it's$", r'^a\\b$', '^é+$'], []],
+    'rex': [None, [r'^\d+$'], [r'^[A-Z]{2}\-\d+$', r'^"q"$', r"^it's$", r'^a\\b$', '^é+$'], []],
 }
 DATE_VALUES = {
     'min': ['2020-01-01', '2020-01-01 10:20:30', '1999-12-31T23:59:59', '2021-06-15 12:30:00.123456',
